@@ -3,6 +3,7 @@ CONSTANT MaxReg = 2
 CONSTANT MaxUnreg = 1
 CONSTANT MaxLen = 3
 CONSTANT MaxGen = 0
+CONSTANT Negative = FALSE
 CONSTANT Narrow = FALSE
 CONSTANT Rich = FALSE
 INVARIANT TypeOK
